@@ -36,6 +36,11 @@ pub struct RustDocument {
     pub(crate) resolved_ahead: Vec<Rc<RustNode>>,
 }
 
+pub(crate) struct NamespaceScope {
+    namespace_lookup: HashMap<String, Rc<Namespace>>,
+    default_namespace: Option<Rc<Namespace>>,
+}
+
 impl RustDocument {
     pub fn init(doc: &Document) -> Self {
         let mut me = Self::empty();
@@ -97,8 +102,13 @@ impl RustDocument {
             return;
         }
 
-        // check if the abbreviation is already in use
-        if self.namespace_lookup.contains_key(original_abbreviation) {
+        // the prefix may be bound already; a nested declaration rebinds it for the component that
+        // carries it (see `namespace_scope`)
+        if self
+            .namespace_lookup
+            .get(original_abbreviation)
+            .is_some_and(|ns| ns.namespace == url)
+        {
             return;
         }
 
@@ -121,6 +131,21 @@ impl RustDocument {
             .insert(original_abbreviation.to_string(), ns.clone());
 
         self.namespaces.push(ns);
+    }
+
+    /// The prefix bindings and the default namespace in force. A component may declare its own
+    /// (`xmlns:p="..."` on a complexType): they hold while that component is read and the
+    /// enclosing ones are put back afterwards.
+    pub(crate) fn namespace_scope(&self) -> NamespaceScope {
+        NamespaceScope {
+            namespace_lookup: self.namespace_lookup.clone(),
+            default_namespace: self.default_namespace.clone(),
+        }
+    }
+
+    pub(crate) fn restore_namespace_scope(&mut self, scope: NamespaceScope) {
+        self.namespace_lookup = scope.namespace_lookup;
+        self.default_namespace = scope.default_namespace;
     }
 
     /// Records the default namespace declaration (`xmlns="..."`) met on a node.
